@@ -459,7 +459,11 @@ fn build_module(s: &ModSpec) -> Option<(Vec<Inst>, Expected)> {
         // every function has its own control mask and result type, so that a value taken from the wrong function shows
         let control = (s.control + 5 * fi as u32) & 0xF;
         let (rt, rt_index) = if fi % 2 == 0 { (void, 0usize) } else { (int, type_ids.iter().position(|x| x.0 == int).unwrap()) };
-        insts.push(Inst::new("Function", Some(rt), Some(fid), vec![Arg::Mask("FunctionControl", control), Arg::IdRef(int)]));
+        // the function-type operand names a declared OpTypeFunction when the module has one (its return type is the
+        // FIRST declared type, so for odd functions it differs from the OpFunction's own result type: the lifted
+        // function must keep the latter), otherwise an id that is no function type at all
+        let fty = find(&type_ids, "function").unwrap_or(int);
+        insts.push(Inst::new("Function", Some(rt), Some(fid), vec![Arg::Mask("FunctionControl", control), Arg::IdRef(fty)]));
         let mut labels = vec![];
         let mut exp_blocks = vec![];
         // (id, type index) of the last operation of the blocks before the current one
@@ -471,6 +475,7 @@ fn build_module(s: &ModSpec) -> Option<(Vec<Inst>, Expected)> {
             insts.push(Inst::new("Label", None, Some(l), vec![]));
             let mut last_val = None;
             let mut phis = vec![];
+            let block_start = insts.len();
             for j in 0..*nphi {
                 let id = next;
                 next += 1;
@@ -496,6 +501,11 @@ fn build_module(s: &ModSpec) -> Option<(Vec<Inst>, Expected)> {
                 n_ops += 1;
             }
             prev_op = prev_op_next;
+            // in every other block the first operation comes BEFORE the phis (the subset does not order them)
+            if (bi + fi) % 2 == 1 && *nphi > 0 && *nops > 0 {
+                let first_op = insts.remove(block_start + *nphi);
+                insts.insert(block_start, first_op);
+            }
             let (t, tdbg) = match *term {
                 "Return" => (Inst::new("Return", None, None, vec![]), "Return".to_string()),
                 "Kill" => (Inst::new("Kill", None, None, vec![]), "Kill".to_string()),
@@ -721,6 +731,8 @@ pub fn run(tier: Tier) -> Run {
         for caps in &cap_lists {
             specs.push(ModSpec { caps: caps.clone(), types: vec!["float", "vector"], consts: 4, funcs: vec![f.clone()], control: (fi % 4) as u32 });
             specs.push(ModSpec { caps: caps.clone(), types: vec![], consts: fi % 5, funcs: vec![f.clone(), func_shapes[(fi * 7 + 3) % func_shapes.len()].clone()], control: 1 });
+            // two functions behind a declared function type whose return type is not the second function's result type
+            specs.push(ModSpec { caps: caps.clone(), types: vec!["float", "function"], consts: fi % 3, funcs: vec![func_shapes[(fi * 5 + 1) % func_shapes.len()].clone(), f.clone()], control: 2 });
         }
     }
     let res: Vec<(Vec<Viol>, &'static str)> = specs.par_iter().map(check_module).collect();
